@@ -77,6 +77,7 @@ Inductive jfile :=
 | FAbsentExplicit     (* --config x, x does not exist *)
 | FUnreadable         (* OSError on open/read *)
 | FSyntaxError        (* json5 raises ValueError *)
+| FTooDeep            (* json5 raises RecursionError: a file nested too deeply *)
 | FNotDict            (* top-level value is not an object *)
 | FDict (d : env).
 
@@ -120,6 +121,7 @@ Definition load_config (g : cfg) (c : env) (f : jfile) : option (env * nat) :=
   | FAbsentExplicit => Some (c, if c_missing_msg g then 1 else 0)
   | FUnreadable => if catches g "OSError" then Some (c, 1) else None
   | FSyntaxError => if catches g "ValueError" then Some (c, 1) else None
+  | FTooDeep => if catches g "RecursionError" then Some (c, 1) else None
   | FNotDict =>
     (* with a validating step first the ValueError is raised before any option changes *)
     match c_steps g with
@@ -143,7 +145,7 @@ Definition wf_cfg (g : cfg) : bool :=
   | CLoadJson :: CValidate :: r => steps_apply_only r
   | _ => false
   end
-  && catches g "ValueError" && catches g "OSError" && c_missing_msg g
+  && catches g "ValueError" && catches g "OSError" && catches g "RecursionError" && c_missing_msg g
   && wf_loader (c_loader g).
 
 (* options that may legitimately have no loader *)
